@@ -46,11 +46,25 @@ func C03(c *core.Ctx) error {
 		name   string
 		data   core.M
 		unroll bool
+		mixed  string // "" | "mixed" (set on every other interface) | "mixed+root" (set at the top level, switched off on every other interface)
 	}
-	variants := []variant{{"unroll-variadic=unset", core.M{}, false}, {"unroll-variadic=true", core.M{"unroll-variadic": true}, true}}
+	variants := []variant{{"unroll-variadic=unset", core.M{}, false, ""}, {"unroll-variadic=true", core.M{"unroll-variadic": true}, true, ""}}
 	if !quick {
-		variants = append(variants, variant{"unroll-variadic=false", core.M{"unroll-variadic": false}, false})
+		variants = append(variants, variant{"unroll-variadic=false", core.M{"unroll-variadic": false}, false, ""})
 	}
+	// the interfaces with variadic methods in ONE file, unroll-variadic: true on every other one (interface level):
+	// what one interface's setting switches on must not carry over to the next one rendered
+	var variadicIfaces []corpIface
+	for _, it := range corpus(nil, !quick) {
+		for _, m := range it.Methods {
+			if m.Variadic {
+				variadicIfaces = append(variadicIfaces, it)
+				break
+			}
+		}
+	}
+	variants = append(variants, variant{"unroll-variadic=true on every other interface of one file", core.M{"unroll-variadic": true}, false, "mixed"},
+		variant{"unroll-variadic=true at the top level, false on every other interface of one file", core.M{"unroll-variadic": true}, false, "mixed+root"})
 	const nshard = 16
 	type built struct {
 		v variant
@@ -59,9 +73,21 @@ func C03(c *core.Ctx) error {
 	builds := make([]*built, len(variants))
 	core.ParallelFor(len(variants), func(i int) {
 		v := variants[i]
-		b, err := drvBuild(c, fmt.Sprintf("c03-%d", i), "testify", v.data, "root", ifaces, "c03/main.go.txt", func(it corpIface) string {
+		level, vIfaces := "root", ifaces
+		var flags func(it corpIface) string
+		if v.mixed != "" {
+			level, vIfaces = v.mixed, variadicIfaces
+			pos := map[string]int{}
+			for k, it := range variadicIfaces {
+				pos[it.Name] = k
+			}
+			flags = func(it corpIface) string {
+				return fmt.Sprintf("Flags: map[string]bool{\"unroll\": %v}", (pos[it.Name]%2 == 0) == (v.mixed == "mixed"))
+			}
+		}
+		b, err := drvBuild(c, fmt.Sprintf("c03-%d", i), "testify", v.data, level, vIfaces, "c03/main.go.txt", func(it corpIface) string {
 			return fmt.Sprintf("func(t *recT) any { return p.NewMock%s(t) }", it.Name)
-		})
+		}, flags)
 		if err != nil {
 			c.Harness("%s: %v", v.name, err)
 			return
@@ -147,7 +173,7 @@ func C03(c *core.Ctx) error {
 	c.Ev.Set("exhaustive", done == len(jobs) && len(jobs) == len(variants)*nshard && total.SkippedByDeadline == 0)
 	c.Ev.Set("methods_explored_one_level_deeper", total.DeepMethods)
 	c.Ev.Set("methods_skipped_by_deadline", total.SkippedByDeadline)
-	c.Ev.Set("bound", map[bool]string{true: "every method: all histories to depth 2, representative methods (one per template branch): depth 3 (without the zero-tuple pattern); 45 symbols (3 call tuples + 7 setup styles x {exact(a0), Anything, exact(zero tuple / no variadic arguments)} x {unlimited, Once}); unroll-variadic unset and true", false: "every method: depth 3 over 87 symbols (adds exact(a2) patterns and Times(2)) for unroll-variadic unset/true, 45 symbols for false; representative methods: depth 4; full variadic element-type set"}[quick])
+	c.Ev.Set("bound", map[bool]string{true: "every method: all histories to depth 2, representative methods (one per template branch): depth 3 (without the zero-tuple pattern); 45 symbols (3 call tuples + 7 setup styles x {exact(a0), Anything, exact(zero tuple / no variadic arguments)} x {unlimited, Once}); unroll-variadic unset and true, plus true on every other interface of one shared file", false: "every method: depth 3 over 87 symbols (adds exact(a2) patterns and Times(2)) for unroll-variadic unset/true, 45 symbols for false; representative methods: depth 4; full variadic element-type set"}[quick])
 	c.Ev.Set("rule", "for every corpus method and unroll-variadic setting: every sequence up to the depth over {call with 3 argument tuples (distinct / zero,nil,empty variadic / variadic with a nil element)} and {register an expectation through EXPECT() in one of 7 styles (Return, Return(zero/nil), Run+Return, RunAndReturn, whole-function provider, per-result providers, no return values) x argument pattern x repetition}, followed by the registered cleanup; each history runs on a fresh generated mock and on a shadow raw testify mock.Mock that receives the same registrations (argument layout per the documented unroll rule) and decides which expectation serves each call; compared: results = that expectation's values, callbacks/providers ran exactly once with the call's arguments and no other callback ran, unmatched call => FailNow, no return values => panic naming the method, cleanup reports unmet expectations iff raw testify does; states = distinct (method, history shape, reported-error count) outcomes")
 	c.Ev.Assume("testify v1.10.0 itself is the reference for expectation matching and Once/Times bookkeeping")
 	c.Ev.Assume("func-typed parameters are matched with mock.Anything (testify refuses func values in expectations); a history ends at the first test failure or panic")
